@@ -24,3 +24,14 @@ CHECKS["C10"] = {
     "note": "Trusted: Lean kernel; correspondence for model = code; exact_convey_array/decrypt_mod_t round a sum of f64: proved/specified with exact rational rounding, inputs within (k+1)*2^-46 of a tie are excluded (no claim); BEHZ lemmas are proved at the integer level for the per-coefficient formulas, the lifting to the array-level model is proved for divide_and_round_q_last and otherwise covered by correspondence; status of individual theorems: DESIGN.md C10.",
     "technique": "Lean 4 theorems (CRT, base conversion, rounding division, BEHZ integer lemmas) over an executable model + differential correspondence with the Rust code",
 }
+
+CHECKS["C01"] = {
+    "text": "Lean theorems: the scaled plaintext multiply_add_plain adds is the nearest integer to q*m/t (model-level lemma on the word arithmetic); BFV scale round trip for every q, t >= 2, m < t and every noise with 2t(|v|+1) < q (upper-half values, q mod t != 0, any t); BGV lift round trip incl. correction factors; phase identities of public-key / secret-key encryptions in any commutative ring; ||a*b||_inf <= N ||a|| ||b|| for negacyclic products, hence the deterministic fresh-noise bound 21(2N+1) and exact decryption for every parameter set satisfying the decidable predicate FreshOK. The check dumps fresh ciphertexts of all three schemes / three modes / all levels with the secret key, recomputes the exact phase with big integers in the Lean driver (spec), runs the Lean model of dot_product_ct_sk_array + decrypt_scale_and_round / decrypt_mod_t (model) and compares both with Decryptor::decrypt and with the original plaintext, and checks the fresh noise against the proved bound.",
+    "note": "Trusted: Lean kernel; correspondence (sampled parameter corners); the secret key is dumped through the library's inverse NTT (C09); CKKS clause partial: exact integers only (phase = plaintext + noise within the deterministic bound), the f64 encoder error is C12's subject; the composition `model decryption = spec decoding` rests on C10's scale-and-round lemma and is validated by correspondence.",
+    "technique": "Lean 4 theorems (rounding round trips, ring identities, norm bound) + exact big-integer decryption oracle in Lean + differential correspondence",
+}
+CHECKS["C02"] = {
+    "text": "Random well-typed BFV/BGV operation programs (all evaluator operations of the property, mixed operand sizes 2..6, both representations, all levels, BGV correction factors) are run on the real evaluator; every result is decrypted three ways: by the library, by the Lean model of decryption, and by exact big-integer phase computation in the Lean driver, and compared with the value of the shadow program in Z_t[X]/(X^N+1) wherever the conservative worst-case noise prediction leaves at least 4 bits. Lean theorems: ciphertext product index arithmetic is the Cauchy product for all size pairs, phase identities of add/sub/negate/plain operations incl. BGV correction-factor balancing (see DESIGN.md C02 status).",
+    "note": "Trusted: Lean kernel; the shadow program is evaluated by the harness (Rust, 30 lines); the noise prediction only decides where a claim is made; BFV multiply (BEHZ) and key-switch noise magnitudes are not proved end to end (algebra only) — covered by the exact oracle on sampled programs.",
+    "technique": "Lean 4 theorems (ciphertext algebra) + exact big-integer decryption oracle in Lean + differential correspondence on random operation programs",
+}
